@@ -1,0 +1,85 @@
+//go:build verif
+
+package analyzer
+
+import "github.com/ludo-technologies/pyscn/internal/parser"
+
+// Exports for the reproducibility (C05) checks of the verification driver.
+// Nothing here is compiled without the "verif" build tag.
+
+// VerifBlock describes one basic block of a synthetic CFG.
+type VerifBlock struct {
+	ID         string `json:"id"`
+	StartLine  int    `json:"start"`
+	EndLine    int    `json:"end"`
+	Terminator string `json:"term"` // "", return, break, continue, raise
+}
+
+// VerifDeadReason builds a CFG from the blocks and asks findTerminatorInPredecessors
+// for the reason of the target block.
+func VerifDeadReason(blocks []VerifBlock, target string) (string, string) {
+	cfg := NewCFG("f")
+	var tb *BasicBlock
+	for _, vb := range blocks {
+		bb := NewBasicBlock(vb.ID)
+		typ := parser.NodeType(parser.NodeExpr)
+		switch vb.Terminator {
+		case "return":
+			typ = parser.NodeReturn
+		case "break":
+			typ = parser.NodeBreak
+		case "continue":
+			typ = parser.NodeContinue
+		case "raise":
+			typ = parser.NodeRaise
+		}
+		bb.AddStatement(&parser.Node{Type: typ, Location: parser.Location{StartLine: vb.StartLine, EndLine: vb.EndLine}})
+		cfg.Blocks[vb.ID] = bb
+		if vb.ID == target {
+			tb = bb
+		}
+	}
+	dcd := NewDeadCodeDetector(cfg)
+	r, sev := dcd.findTerminatorInPredecessors(tb)
+	return string(r), string(sev)
+}
+
+// VerifProcessComponents runs processComponents on components given in a chosen order.
+func VerifProcessComponents(graph *DependencyGraph, components [][]string) []*CircularDependency {
+	cdd := NewCircularDependencyDetector(graph)
+	cdd.components = components
+	return cdd.processComponents()
+}
+
+// VerifRefactoringPriorities runs identifyRefactoringPriorities on the given module metrics.
+func VerifRefactoringPriorities(graph *DependencyGraph, metrics map[string]*ModuleMetrics) []string {
+	graph.ModuleMetrics = metrics
+	calc := NewCouplingMetricsCalculator(graph, nil)
+	return calc.identifyRefactoringPriorities()
+}
+
+// VerifSystemSums runs calculateSystemMetrics on the given module metrics.
+func VerifSystemSums(graph *DependencyGraph, metrics map[string]*ModuleMetrics) *SystemMetrics {
+	graph.ModuleMetrics = metrics
+	graph.TotalModules = len(metrics)
+	graph.SystemMetrics = &SystemMetrics{}
+	calc := NewCouplingMetricsCalculator(graph, nil)
+	calc.calculateSystemMetrics()
+	return graph.SystemMetrics
+}
+
+// VerifSortClonePairs runs limitAndSortClonePairs on pairs given in a chosen order.
+func VerifSortClonePairs(pairs []*ClonePair, maxPairs int) []*ClonePair {
+	cd := NewCloneDetector(DefaultCloneDetectorConfig())
+	cd.clonePairs = pairs
+	cd.limitAndSortClonePairs(maxPairs)
+	return cd.clonePairs
+}
+
+// VerifMajorityCloneType exposes majorityCloneType.
+func VerifMajorityCloneType(typeMap map[string]CloneType, members []*CodeFragment) CloneType {
+	return majorityCloneType(typeMap, members)
+}
+
+// VerifPairKey exposes pairKey.
+func VerifPairKey(a, b *CodeFragment) string { return pairKey(a, b) }
